@@ -168,6 +168,9 @@ func drawSet(t *core.T) (set maptile.Set, z maptile.Zoom, class string) {
 		// block structured: inside one ancestor block, fill some sub-blocks completely, sprinkle the rest
 		z = maptile.Zoom(s.Range(1, 12, "zoom"))
 		depth := s.Range(1, 4, "depth") // block is 2^depth x 2^depth tiles
+		if s.Chance(1, 30, "bigblock") {
+			depth = 5 + s.Intn(2, "d56") // up to 64x64 = 4096 tiles, six merge levels
+		}
 		if maptile.Zoom(depth) > z {
 			depth = int(z)
 		}
@@ -384,6 +387,9 @@ func drawRadius(s *core.Source, z maptile.Zoom) (float64, string) {
 		r, class = 0.5+float64(s.Intn(45, "r"))/10, "tiles"
 	default:
 		r, class = 5+float64(s.Intn(70, "r"))/10, "many"
+		if s.Chance(1, 12, "huge") {
+			r, class = 20+float64(s.Intn(200, "r"))/10, "huge" // thousands of tiles
+		}
 	}
 	if r > 0.45*n {
 		r = 0.45 * n
